@@ -89,6 +89,7 @@ SHAPES = {
     'sh32': {'defines': ['H_BUFSZ=32', 'H_SHARED=1'], 'text': 'shared working buffer of 32 bytes (halves 16/16)', 'unwind': 34},
     'sep40': {'defines': ['H_BUFSZ=40', 'H_SHARED=0', 'H_UBUFSZ=6'], 'text': 'command buffer 40 bytes, separate event buffer 6 bytes', 'unwind': 42},
     'sh17': {'defines': ['H_BUFSZ=17', 'H_SHARED=1'], 'text': 'shared working buffer of 17 bytes (odd: halves 8/8, one spare byte)', 'unwind': 19},
+    'sep8u40': {'defines': ['H_BUFSZ=8', 'H_SHARED=0', 'H_UBUFSZ=40', 'X_MAXTXT=40'], 'text': 'command buffer 8 bytes, separate event buffer 40 bytes', 'unwind': 44},
     'sep8': {'defines': ['H_BUFSZ=8', 'H_SHARED=0', 'H_UBUFSZ=6'], 'text': 'command buffer 8 bytes, separate event buffer 6 bytes', 'unwind': 14},
 }
 SHAPE_TEXT = '; pool of 3 commands in 1-2 groups, <= 2 variables each (all types/access modes, data_size 1..4), names <= 2 bytes over all byte values, every flag and handler subset, event queue capacity %d; all object scalars symbolic under Inv'
@@ -203,6 +204,8 @@ def jobs(tier):
     for st in ('READ_LOOP', 'TEST_LOOP', 'FORMAT_READ_ARGS', 'PARSE_COMMAND_ARGS'):
         J.append(L1('at', st, 'sep8'))
     # larger capacities so that the TEST response / list lines actually fit: text-level clauses of C19 (and safety)
+    for st in ('IDLE', 'FORMAT_TEST_ARGS', 'AFTER_FLUSH_FORMAT_TEST_ARGS'):
+        J.append(L1('un', st, 'sep8u40', props=['C19', 'C03']))
     J.append(L1('at', 'PRINT_CMD', 'sh32', props=['C19', 'C03']))
     for st in ('FORMAT_TEST_ARGS', 'WAIT_TEST_ACKNOWLEDGE', 'AFTER_FLUSH_FORMAT_TEST_ARGS'):
         J.append(L1('at', st, 'sep40', props=['C19', 'C03']))
